@@ -107,6 +107,9 @@ def placements(term, ty):
         return [("cmp-right", ("cmp", "eq", I1, term)), ("cmp-left", ("cmp", "ne", term, S1)),
                 ("ordering-right", ("cmp", "gt", I1, term)), ("in-element", ("cmp", "in", I1, ("list", (term, ("lit", "int", "7"))))),
                 ("in-subject", ("cmp", "in", term, ("list", (("lit", "int", "7"), I1)))),
+                ("in-only-nulls", ("cmp", "in", I1, ("list", (term,)))),
+                ("not-in-only-nulls", ("un", "not", ("cmp", "in", I1, ("list", (term, term))))),
+                ("in-only-nulls-and", ("bool", "and", ("cmp", "gt", ident("k"), ("lit", "int", "7")), ("un", "not", ("cmp", "in", S1, ("list", (term,)))))),
                 ("in-subject-under-or", ("bool", "or", ("cmp", "eq", S1, ("lit", "str", "a")),
                                           ("cmp", "in", term, ("list", (S1, ("lit", "str", "b")))))),
                 ("arith-operand", ("cmp", "eq", ("bin", "add", I1, term), ("lit", "int", "7"))),
